@@ -120,5 +120,49 @@ v('c07-no-count-increment', 'C07', 'fire', B, "    st->see_list = probe;\n    st
 v('c07-lose-tail', 'C07', 'fire', B, "    probe->nextProbe = st->see_list;\n    st->see_list = probe;", "    st->see_list = probe;", 'R07.f')
 v('c07-benign-type-via-local', 'C07', 'silent', B, "    probe->type = lltd_htons((header->opcode == opcode_probe) ? 1 : 0);", "    uint16_t kind = (header->opcode == opcode_probe) ? 1 : 0;\n    probe->type = lltd_htons(kind);")
 
+# ---- C11
+v('c11-stride-14', 'C11', 'fire', P, "    ethernet_address_t stationList[1];", "    ethernet_header_t  stationList[1];", 'R11.a', 'does not compile with the .a accessor -> uses second edit')
+V[-1]['edits'].append({'file': A, 'old': "                const ethernet_address_t *stations = disc_header->stationList;\n                for (uint16_t i = 0; i < station_count; i++) {\n                    if (mac_equal(stations[i].a, our_mac)) {", 'new': "                const ethernet_header_t *stations = disc_header->stationList;\n                for (uint16_t i = 0; i < station_count; i++) {\n                    if (mac_equal(stations[i].source.a, our_mac)) {"})
+v('c11-loop-from-1', 'C11', 'fire', A, "                for (uint16_t i = 0; i < station_count; i++) {", "                for (uint16_t i = 1; i < station_count; i++) {", 'R11.b')
+v('c11-swapped-returns', 'C11', 'fire', A, "            return changed_xid ? sess_discover_acking_chgd_xid : sess_discover_acking;", "            return changed_xid ? sess_discover_acking : sess_discover_acking_chgd_xid;", 'R11.c')
+v('c11-broadcast-test-5-bytes', 'C11', 'fire', A, "static bool mac_equal(const uint8_t *a, const uint8_t *b) {\n    return a[0] == b[0] && a[1] == b[1] && a[2] == b[2] &&\n           a[3] == b[3] && a[4] == b[4] && a[5] == b[5];", "static bool mac_equal(const uint8_t *a, const uint8_t *b) {\n    return a[0] == b[0] && a[1] == b[1] && a[2] == b[2] &&\n           a[3] == b[3] && a[4] == b[4];", 'R11')
+v('c11-hello-as-reset', 'C11', 'fire', A, "    if (header->opcode == opcode_hello) {\n        return sess_hello;\n    }", "    if (header->opcode == opcode_hello) {\n        return sess_reset;\n    }", 'R11.c')
+v('c11-probe-yields-event', 'C11', 'fire', A, "        return changed_xid ? sess_discover_noack_chgd_xid : sess_discover_noack;\n    }\n\n    return -1;", "        return changed_xid ? sess_discover_noack_chgd_xid : sess_discover_noack;\n    }\n\n    return header->opcode == opcode_probe ? sess_hello : -1;", 'R11.c')
+v('c11-stop-at-first-mismatch', 'C11', 'fire', A, "                    if (mac_equal(stations[i].a, our_mac)) {\n                        acking = true;\n                        break;\n                    }", "                    if (mac_equal(stations[i].a, our_mac)) {\n                        acking = true;\n                    }\n                    break;", 'R11')
+v('c11-benign-while', 'C11', 'silent', A, "                for (uint16_t i = 0; i < station_count; i++) {\n                    if (mac_equal(stations[i].a, our_mac)) {\n                        acking = true;\n                        break;\n                    }\n                }", "                uint16_t idx = 0;\n                while (idx < station_count && !acking) {\n                    acking = mac_equal(stations[idx].a, our_mac);\n                    idx++;\n                }")
+# ---- C01
+v('c01-esp32-no-length-guard', 'C01', 'fire', 'os/esp32/daemon/lltd_esp32.c', "    if (!ctx || !frame || length < sizeof(lltd_demultiplex_header_t)) {", "    if (!ctx || !frame) {", 'R01.obl')
+v('c01-query-guard-relaxed', 'C01', 'fire', B, "        if (offset + sizeof(wire) > mtu) {\n            break;\n        }", "        if (offset > mtu) {\n            break;\n        }", 'R01.obl', 'alone still safe because max_descs bounds the loop -> combined with the next edit')
+V[-1]['edits'].append({'file': B, 'old': "        max_descs = (mtu - sizeof(lltd_demultiplex_header_t) - sizeof(*respH)) / sizeof(lltd_probe_desc_wire_t);", 'new': "        max_descs = (mtu - sizeof(lltd_demultiplex_header_t) - sizeof(*respH)) / sizeof(lltd_probe_desc_wire_t) + 1;"})
+v('c01-hostname-unclamped', 'C01', 'fire', T, "    if (written > 32) {\n        written = 32;\n    }\n    hostnameTLV->TLVLength = (uint8_t)written;", "    hostnameTLV->TLVLength = (uint8_t)written;", 'R01.obl')
+v('c01-emit-unclamped', 'C01', 'fire', B, "    if ((size_t)numDescs > maxDescs) {\n        numDescs = (int)maxDescs;\n    }", "", 'R01.obl')
+v('c01-int-shift', 'C01', 'fire', T, "    uint32_t wire = lltd_htonl(flags << 16);", "    int sflags = (int)(flags & 0xFFFF);\n    uint32_t wire = lltd_htonl((uint32_t)(sflags << 16));", 'R01.obl')
+v('c01-largetlv-copy-unguarded', 'C01', 'fire', B, "    } else if (dataSize > dataOffset + maxPayload) {\n        // More data to come\n        bytesToWrite = maxPayload;", "    } else if (dataSize + 8 > dataOffset + maxPayload) {\n        // More data to come\n        bytesToWrite = maxPayload;", 'R01.obl')
+v('c01-hwid-scan-past', 'C01', 'fire', B, "                for (size_t i = 0; i + 1 < 64; i += 2) {", "                for (size_t i = 0; i < 64; i += 2) {", None, 'benign? reads data[i+1] with i=62 -> 63 ok; i<64 even stays in bounds')
+V[-1]['expect'] = 'silent'
+V[-1]['id'] = 'c01-benign-hwid-loop-bound'
+v('c01-hwid-scan-overrun', 'C01', 'fire', B, "                for (size_t i = 0; i + 1 < 64; i += 2) {", "                for (size_t i = 0; i < 64; i += 1) {", 'R01.obl', 'reads data[64]')
+v('c01-use-after-free', 'C01', 'fire', B, "    (void)lltd_port_send_frame(iface_ctx, buffer, offset);\n    lltd_port_free(buffer);\n}\n\n//====", "    lltd_port_free(buffer);\n    (void)lltd_port_send_frame(iface_ctx, buffer, offset);\n}\n\n//====", 'R01.obl')
+v('c01-table-index', 'C01', 'fire', A, "    t[10].from = 2; t[10].to = 1; t[10].with = -3;", "    t[10].from = 2; t[10].to = 7; t[10].with = -3;", 'R01')
+v('c01-recv-len-const', 'C01', 'fire', 'os/linux/daemon/linux-main.c', "        ssize_t bytes = recvfrom(iface->socket, iface->recvBuffer, iface->MTU, 0, NULL, NULL);", "        ssize_t bytes = recvfrom(iface->socket, iface->recvBuffer, iface->ifIndex, 0, NULL, NULL);", 'R01.7')
+# ---- C18
+v('c18-no-null-check-hello', 'C18', 'fire', B, "    uint8_t *buffer = (uint8_t *)lltd_port_malloc(mtu);\n    if (!buffer) {\n        return;\n    }\n    lltd_port_memset(buffer, 0, mtu);\n\n    ethernet_address_t our_mac = {{0, 0, 0, 0, 0, 0}};\n    (void)lltd_port_get_mac_address(iface_ctx, &our_mac);\n\n    set_active_mapper", "    uint8_t *buffer = (uint8_t *)lltd_port_malloc(mtu);\n    lltd_port_memset(buffer, 0, mtu);\n\n    ethernet_address_t our_mac = {{0, 0, 0, 0, 0, 0}};\n    (void)lltd_port_get_mac_address(iface_ctx, &our_mac);\n\n    set_active_mapper", 'R18.a')
+v('c18-return-before-free', 'C18', 'fire', B, "        log_warning(\"sendProbeMsg: send_frame failed (%zu bytes, opcode=%u)\", packageSize, code);\n        lltd_port_free(probe);\n        return false;", "        log_warning(\"sendProbeMsg: send_frame failed (%zu bytes, opcode=%u)\", packageSize, code);\n        return false;", 'R18')
+v('c18-mtu-no-fallback', 'C18', 'fire', B, "    size_t mtu = 0;\n    if (lltd_port_get_mtu(iface_ctx, &mtu) != 0 || mtu == 0) {\n        mtu = 1500;\n    }\n\n    uint8_t *buffer = (uint8_t *)lltd_port_malloc(mtu);\n    if (!buffer) {\n        return;\n    }\n    lltd_port_memset(buffer, 0, mtu);\n\n    const ethernet_address_t *destAddr;", "    size_t mtu = 0;\n    (void)lltd_port_get_mtu(iface_ctx, &mtu);\n\n    uint8_t *buffer = (uint8_t *)lltd_port_malloc(mtu);\n    if (!buffer) {\n        return;\n    }\n    lltd_port_memset(buffer, 0, mtu);\n\n    const ethernet_address_t *destAddr;", 'R18.c')
+v('c18-ctor-deref', 'C18', 'fire', A, "    automata *autom = lltd_port_malloc(sizeof(automata));\n    if (!autom) {\n        return NULL;\n    }\n    autom->states_no = 4;", "    automata *autom = lltd_port_malloc(sizeof(automata));\n    autom->states_no = 4;", 'R18')
+v('c18-ctor-leak', 'C18', 'fire', A, "    if (!band) {\n        lltd_port_free(autom);\n        return NULL;\n    }", "    if (!band) {\n        return NULL;\n    }", 'R18.d')
+v('c18-state-null', 'C18', 'fire', B, "    lltd_iface_state *st = lltd_state_for_iface(iface_ctx);\n    if (!st) {\n        return;\n    }", "    lltd_iface_state *st = lltd_state_for_iface(iface_ctx);", 'R18.a')
+v('c18-bssid-uninit', 'C18', 'fire', T, "    uint8_t bssid[6];\n    if (lltd_port_get_bssid(iface_ctx, bssid) != 0) {\n        return 0;\n    }", "    uint8_t bssid[6];\n    (void)lltd_port_get_bssid(iface_ctx, bssid);", 'R18')
+v('c18-probe-node-null', 'C18', 'fire', B, "    probe_t *probe = (probe_t *)lltd_port_malloc(sizeof(*probe));\n    if (!probe) {\n        return;\n    }", "    probe_t *probe = (probe_t *)lltd_port_malloc(sizeof(*probe));", 'R18.a')
+# ---- C19
+v('c19-no-free-query', 'C19', 'fire', B, "    (void)lltd_port_send_frame(iface_ctx, buffer, offset);\n    lltd_port_free(buffer);\n\n    if (more) {", "    (void)lltd_port_send_frame(iface_ctx, buffer, offset);\n\n    if (more) {", 'R19.b')
+v('c19-no-cap', 'C19', 'fire', B, "    if (st->see_list_count >= LLTD_MAX_SEEN_PROBES) {\n        log_warning(\"parseProbe: observation list full (%u), dropping probe\", (unsigned)st->see_list_count);\n        return;\n    }\n", "", 'R19.c')
+v('c19-reset-keeps-icon', 'C19', 'fire', B, "                    lltd_state_clear_icon_cache(st);\n                    st->mapper_known = 0;", "                    st->mapper_known = 0;", 'R19.d')
+v('c19-friendly-name-leak', 'C19', 'fire', B, "            if (lltd_port_get_friendly_name(&data, &dataSize) == 0) {\n                should_free = true;\n            }", "            (void)lltd_port_get_friendly_name(&data, &dataSize);", 'R19.b')
+v('c19-dup-not-freed', 'C19', 'fire', B, "    if (found) {\n        lltd_port_free(probe);\n        return;\n    }", "    if (found) {\n        return;\n    }", 'R19.b')
+v('c19-icon-refetch', 'C19', 'fire', B, "            if (!st->small_icon && st->small_icon_size == 0) {\n                if (lltd_port_get_icon_image", "            if (1) {\n                if (lltd_port_get_icon_image", 'R19')
+v('c19-double-free', 'C19', 'fire', B, "    lltd_port_free(probe);\n    return true;\n}", "    lltd_port_free(probe);\n    if (ack) lltd_port_free(probe);\n    return true;\n}", 'R19.b')
+v('c19-hwid-leak', 'C19', 'fire', B, "                        break;\n                    }\n                }\n                should_free = true;", "                        break;\n                    }\n                }\n                should_free = (dataSize > 0);", 'R19.b')
+
 json.dump(V, open(os.path.join(HERE, 'variants.json'), 'w'), indent=1)
 print(len(V), 'variants')
